@@ -38,36 +38,74 @@ theorem mulScalars_right_comm (ms p c1 c2 : List ℕ) :
           refine ⟨?_, ih p c1 c2⟩
           rw [Nat.mod_mul_mod, Nat.mod_mul_mod, Nat.mul_right_comm]
 
+/-- the loop only depends on the active points as a multiset, provided no point gone through is
+missing from the table (otherwise a collision and a miss may be met in either order: `err` vs
+`panic`). -/
 theorem lagrangeProd_perm (ms : List ℕ) (table : List (ℕ × List ℕ)) (own : ℕ) {a b : List ℕ}
-    (h : a.Perm b) : ∀ prod, lagrangeProd ms table own a prod = lagrangeProd ms table own b prod := by
+    (h : a.Perm b) (hm : ∀ x ∈ a, x ≠ own → ∃ c, table.lookup x = some c) :
+    ∀ prod, lagrangeProd ms table own a prod = lagrangeProd ms table own b prod := by
   induction h with
   | nil => intro prod; rfl
   | cons x _ ih =>
     intro prod
+    have ih' := ih (fun z hz => hm z (List.mem_cons_of_mem _ hz))
     unfold lagrangeProd
     split
-    · cases table.lookup x with
-      | none => rfl
-      | some c => exact ih _
-    · exact ih _
+    · split
+      · rfl
+      · cases table.lookup x with
+        | none => rfl
+        | some c => exact ih' _
+    · exact ih' _
   | swap x y l =>
     intro prod
     simp only [lagrangeProd]
-    cases List.lookup x table <;> cases List.lookup y table <;>
-      by_cases hx : x = own <;> by_cases hy : y = own <;>
-      (simp only [hx, hy, ne_eq, not_true_eq_false, not_false_eq_true, if_true, if_false]
-       try rw [mulScalars_right_comm])
-  | trans _ _ ih1 ih2 => intro prod; rw [ih1, ih2]
+    by_cases hx : x = own <;> by_cases hy : y = own
+    · simp only [hx, hy, ne_eq, not_true_eq_false, if_false]
+    · simp only [hx, hy, ne_eq, not_true_eq_false, not_false_eq_true, if_true, if_false]
+    · simp only [hx, hy, ne_eq, not_true_eq_false, not_false_eq_true, if_true, if_false]
+    · obtain ⟨cx, hcx⟩ := hm x (by simp) hx
+      obtain ⟨cy, hcy⟩ := hm y (by simp) hy
+      simp only [hx, hy, hcx, hcy, ne_eq, not_false_eq_true, if_true]
+      cases pointsCollide ms own x <;> cases pointsCollide ms own y <;>
+        simp only [Bool.false_eq_true, if_true, if_false]
+      rw [mulScalars_right_comm]
+  | trans h1 _ ih1 ih2 =>
+    intro prod
+    rw [ih1 hm, ih2 (fun z hz hne => hm z (h1.mem_iff.mpr hz) hne)]
 
-/-- `GenAdditiveShare` only depends on the first `threshold` active points as a multiset —
-for every combiner (any table), own point and share. -/
+/-- `GenAdditiveShare` only depends on the first `threshold` active points as a multiset, for every
+combiner, own point and share, provided those points (other than `own`) are in the table. -/
 theorem genAdditiveShare_perm (cmb : Combiner) (a₁ a₂ : List ℕ) (own : ℕ) (share : QP)
     (hlen : a₁.length = a₂.length)
-    (h : (a₁.take cmb.threshold.toNat).Perm (a₂.take cmb.threshold.toNat)) :
+    (h : (a₁.take cmb.threshold.toNat).Perm (a₂.take cmb.threshold.toNat))
+    (hm : ∀ x ∈ a₁.take cmb.threshold.toNat, x ≠ own → ∃ c, cmb.table.lookup x = some c) :
     genAdditiveShare cmb a₁ own share = genAdditiveShare cmb a₂ own share := by
   unfold genAdditiveShare
   rw [hlen]
-  simp only [lagrangeProd_perm cmb.ring.ms cmb.table own h]
+  simp only [lagrangeProd_perm cmb.ring.ms cmb.table own h hm]
+
+/-- unconditionally: if one order yields a share, every other order yields the same share. -/
+theorem genAdditiveShare_perm_ok (cmb : Combiner) (a₁ a₂ : List ℕ) (own : ℕ) (share s : QP)
+    (hlen : a₁.length = a₂.length)
+    (h : (a₁.take cmb.threshold.toNat).Perm (a₂.take cmb.threshold.toNat))
+    (hok : genAdditiveShare cmb a₁ own share = .ok s) :
+    genAdditiveShare cmb a₂ own share = .ok s := by
+  rw [← hok]
+  symm
+  apply genAdditiveShare_perm cmb a₁ a₂ own share hlen h
+  unfold genAdditiveShare at hok
+  split at hok
+  · exact absurd hok (by simp)
+  · split at hok
+    · exact absurd hok (by simp)
+    · simp only at hok
+      split at hok
+      · exact absurd hok (by simp)
+      · exact absurd hok (by simp)
+      · next prod hp =>
+        intro x hx hne
+        exact (lagrangeProd_ok_inv _ _ _ _ _ _ hp x hx hne).1
 
 /-! ### a point that is `0` modulo `q` receives the secret -/
 
